@@ -122,14 +122,15 @@ func c15LockCreateError(c *Ctx, rt *core.Runtime, pr *c15Pair, n int) {
 	}
 	_, lockErr3 := os.Stat(filepath.Join(psdir, "_lock"))
 	want := append(got, fmt.Sprint(lockErr3 == nil), fmt.Sprint(holders))
-	// In LTS terms: E1 = Lock() with a failing create (returns nil, handler registered, no file); the
-	// caller then fails on "read only mode" and Unlock()s = the process leaves without touching a file (K1);
+	// In LTS terms: E1 = Lock() with a failing create (under the regenerated fact c15LockCreateErrorIgnored: the
+	// error is returned and nothing is registered; before the repair: returns nil, handler registered, no file,
+	// the caller then fails on "read only mode" and Unlock()s); the process leaves without touching a file (K1);
 	// A2,G2 = the second mrp; S1 = the first one dies through the handler path; A3 = the third.
 	_ = want
 	if rep := c.Drv.Ask("C15.lts", "E1,K1,A2,G2,S1,A3"); rep != "bad-op" {
 		f := splitFields(rep)
 		// reply: verdicts of the six actions, lockFile, holders, registered
-		if len(f) < 8 || f[2] != got[1] || f[5] != got[3] || f[6] != fmt.Sprint(lockErr3 == nil) || f[7] != fmt.Sprint(holders) {
+		if len(f) < 8 || f[0] != e1 || f[2] != got[1] || f[5] != got[3] || f[6] != fmt.Sprint(lockErr3 == nil) || f[7] != fmt.Sprint(holders) {
 			r.violate(Violation{Kind: "correspondence", Key: "C15:lock-lts-mismatch",
 				What:  "history E1,K1,A2,G2,S1,A3 (an attach whose lock-file create fails and which then gives up, a second attach, the death of the first process, a third attach) on a real pipestance differs from the Lean lock LTS",
 				Input: "E1,K1,A2,G2,S1,A3", Impl: append(got, fmt.Sprint(lockErr3 == nil), fmt.Sprint(holders)), Model: rep,
